@@ -730,7 +730,7 @@ where
             Expr::MacroExpansion {
                 ref replacement, ..
             } => self.visit_expr(replacement),
-            Expr::Annotated(..) => unimplemented!(), // FIXME
+            Expr::Annotated(ref expr, _) => self.visit_expr(expr),
             Expr::Error(..) => (),
         }
     }
